@@ -1,5 +1,6 @@
 import QuiverModel.Core.Text.Doc
 import QuiverModel.Lemmas.Text.Escape
+import QuiverModel.Lemmas.Text.Layout
 /-
 C17 — Formatting is a fixpoint and preserves the program and its comments.
 Property theorems about M-Text (the layout engine of `pretty.rs` and the string re-escaping of
@@ -43,6 +44,120 @@ example : print (.mkGroup (.concat [.text ['a'], .line, .lineSuffix (.text ['/',
 /-- The flag computed by `pretty::group` is the one `forces_break` reports for the group. -/
 theorem forcesBreak_mkGroup (d : Doc) : forcesBreak (Doc.mkGroup d) = forcesBreak d := by
   simp [Doc.mkGroup, forcesBreak]
+
+/-! ## Line-breaking decisions never change, drop or reorder text atoms
+
+`atomsOf (printPieces d w)` is the sequence of `Text` atoms `print` appends to its output (spaces and
+newlines are separate pieces). `Reads d m as` says: `as` is a reading of the atoms of `d` in document
+order in which every `IfBreak` contributes the branch of the mode its enclosing group is laid out in
+(forced groups in break mode). Which mode a group gets is the only thing the width can influence. -/
+
+/-- **Nothing lost, nothing duplicated** (all documents): at every width the emitted atoms are a
+    permutation of a reading of the document — a permutation only because `LineSuffix` content is
+    deferred to the end of its line. -/
+theorem print_atoms_perm (d : Doc) (w : Nat) :
+    ∃ as, Reads d .brk as ∧ (atomsOf (printPieces d w)).Perm as := by
+  obtain ⟨a, b, ha, hb, hp⟩ := printLoop_atoms w 0 [⟨0, .brk, d⟩] []
+  rw [hb.nil_inv] at hp
+  exact ⟨a, ha.single_inv, by simpa [printPieces] using hp⟩
+
+/-- **Order** (documents without line suffixes): the emitted atoms ARE a reading of the document, in
+    document order. -/
+theorem print_atoms_order (d : Doc) (w : Nat) (hs : noSuffix d = true) :
+    Reads d .brk (atomsOf (printPieces d w)) := by
+  have := printLoop_order w 0 [⟨0, .brk, d⟩] [] rfl (NoSuffixStack.single hs)
+  exact this.single_inv
+
+/-- **print_tokens_width_independent**: when both branches of every `IfBreak` carry the same atoms
+    (e.g. none), the atom sequence does not depend on the width at all: it is `atomsDet d`. -/
+theorem print_tokens_width_independent (d : Doc) (w₁ w₂ : Nat) (hs : noSuffix d = true)
+    (hn : ifBreakNeutral d = true) :
+    atomsOf (printPieces d w₁) = atomsOf (printPieces d w₂) ∧
+    atomsOf (printPieces d w₁) = atomsDet d := by
+  have h1 := Reads.det d .brk _ hn (print_atoms_order d w₁ hs)
+  have h2 := Reads.det d .brk _ hn (print_atoms_order d w₂ hs)
+  exact ⟨h1.trans h2.symm, h1⟩
+
+/-- …and with line suffixes, up to the deferral: the same atoms at every width. -/
+theorem print_tokens_width_independent_perm (d : Doc) (w₁ w₂ : Nat) (hn : ifBreakNeutral d = true) :
+    (atomsOf (printPieces d w₁)).Perm (atomsOf (printPieces d w₂)) := by
+  obtain ⟨a1, h1, p1⟩ := print_atoms_perm d w₁
+  obtain ⟨a2, h2, p2⟩ := print_atoms_perm d w₂
+  rw [Reads.det d .brk a1 hn h1] at p1
+  rw [Reads.det d .brk a2 hn h2] at p2
+  exact p1.trans p2.symm
+
+/-- The full-strength statement for arbitrary documents is the relational one: `print_atoms_order`
+    (+ `print_atoms_perm` when there are line suffixes). For `IfBreak`s whose branches differ
+    (`~> `, trailing `,`, leading `| ` in format.rs) the atoms legitimately depend on the layout; what
+    the theorems guarantee is that they are chosen consistently with the mode of the enclosing group. -/
+def print_tokens_width_independentStatement : Prop :=
+  ∀ (d : Doc) (w : Nat), noSuffix d = true → Reads d .brk (atomsOf (printPieces d w))
+
+theorem print_tokens_width_independentStatement_holds : print_tokens_width_independentStatement :=
+  fun d w hs => print_atoms_order d w hs
+
+example : noSuffix (.mkGroup (.concat [.text ['a'], .line, .ifBreak (.text ['~']) .nil, .text ['b']])) = true
+    ∧ ifBreakNeutral (.concat [.text ['a'], .line, .text ['b']]) = true := by
+  simp [Doc.mkGroup, noSuffix, noSuffixList, ifBreakNeutral, ifBreakNeutralList]
+
+/-! ## Line suffixes are flushed before the next newline and at the end of input -/
+
+/-- **lineSuffix_flushed**: for documents whose line suffixes hold plain texts (what format.rs
+    builds), from any state with buffered suffix texts `ss` the output continues with pieces of the
+    current line (no newline among them), then `ss` in order, then the suffixes buffered meanwhile,
+    and only then a newline or the end of the output: a trailing comment is never pushed past a line
+    break and never lost at end of input. -/
+theorem lineSuffix_flushed (w col : Nat) (st suf : List Frame) (ss : List (List Char))
+    (hst : ∀ f ∈ st, textSuffixes f.doc = true) (hsuf : IsTextFrames suf ss) :
+    FlushShape (printLoop w col st suf) ss :=
+  printLoop_flush w col st suf hst ss hsuf
+
+/-- At the top level: a suffix met first comes out before the first newline (or at the end). -/
+theorem lineSuffix_flushed_top (d : Doc) (w : Nat) (s : List Char) (hd : textSuffixes d = true) :
+    FlushShape (printPieces (.concat [.lineSuffix (.text s), d]) w) [s] := by
+  unfold printPieces
+  rw [printLoop_concat w 0 ⟨0, .brk, _⟩ [] [] _ rfl]
+  simp only [mkFrames, List.append_nil]
+  rw [printLoop_lineSuffix w 0 ⟨0, .brk, _⟩ _ [] _ rfl]
+  exact printLoop_flush w 0 _ _ (fun f hf => by simp at hf; subst hf; exact hd) [s]
+    (by simp [IsTextFrames])
+
+example : printPieces (.concat [.lineSuffix (.text ['/', '/']), .text ['x'], .hardline, .text ['y']]) 80
+    = [.atom ['x'], .atom ['/', '/'], .nl 0, .atom ['y']] := by
+  simp [printPieces, printLoop, mkFrames]
+
+/-! ## `flatten` is the wide layout -/
+
+/-- **flatten_eq_print_wide**: for a document that `flatten` may legally be applied to — no hard
+    line and no line suffix in its flat reading, no group flagged as forced (`flatOk`) — printing the
+    document as a group at any width that holds its flat layout gives exactly `flatten d`. The width
+    must be below 2^63: `fits` casts the remaining width to `isize`, so at width ≥ 2^63 every group
+    breaks (the differential exercises that edge). -/
+theorem flatten_eq_print_wide (d : Doc) (w : Nat) (hok : flatOk d = true)
+    (hfit : piecesWidth (flatPieces d) ≤ w) (hw : w < 2 ^ 63) :
+    print (.group d false) w = flatten d :=
+  print_group_eq_flatten d w hok hfit hw
+
+/-- In terms of `forces_break` (the check format.rs makes before calling `flatten`): for documents
+    built with `pretty::group` that have no line suffix in their flat reading, `¬ forces_break d`
+    suffices, and `pretty::group d` is that group. -/
+theorem flatten_eq_print_wide_of_not_forcesBreak (d : Doc) (w : Nat) (hwf : wfGroups d = true)
+    (hns : noSuffixFlat d = true) (hf : forcesBreak d = false)
+    (hfit : piecesWidth (flatPieces d) ≤ w) (hw : w < 2 ^ 63) :
+    print (Doc.mkGroup d) w = flatten d := by
+  have : Doc.mkGroup d = .group d false := by simp [Doc.mkGroup, hf]
+  rw [this]
+  exact print_group_eq_flatten d w (flatOk_of_not_forcesBreak d hwf hns hf) hfit hw
+
+/-- The hypothesis about line suffixes cannot be dropped: `flatten` inlines a suffix where it stands,
+    `print` defers it to the end of the line. -/
+example : flatten (.concat [.lineSuffix (.text ['c']), .text ['x']]) = ['c', 'x'] ∧
+    print (.group (.concat [.lineSuffix (.text ['c']), .text ['x']]) false) 80 = ['x', 'c'] := by
+  constructor
+  · simp [flatten, flattenLoop, stripTrailingWhitespace, rustLines, rustLinesAux, trimEnd, isWhitespace, joinNl]
+  · simp [print, printPieces, printLoop, fits, fitsLoop, popFrame, mkFrames, toIsize, renderPieces,
+      Piece.render, stripTrailingWhitespace, rustLines, rustLinesAux, trimEnd, isWhitespace, joinNl]
 
 /-! ## String re-escaping round trips
 
